@@ -6,9 +6,7 @@ package spynode
 // Semi-live: everything is stepped by the harness, but the real checkTxDelays goroutine runs.
 
 import (
-	"context"
 	"fmt"
-	"sync"
 	"testing"
 	"time"
 
@@ -30,52 +28,6 @@ type C07Event struct {
 	// transaction and block processing
 	K   int        `json:"k,omitempty"`
 	Sub []C07Event `json:"sub,omitempty"`
-}
-
-// c07Gate holds the delay checker goroutine at a chosen storage operation.
-type c07Gate struct {
-	mu        sync.Mutex
-	armed     bool
-	countdown int
-	paused    chan struct{}
-	resume    chan struct{}
-}
-
-func (g *c07Gate) hook(ctx context.Context, op, key string) {
-	if role, _ := ctx.Value(verifkit.RoleKey).(string); role != "checker" {
-		return
-	}
-	g.mu.Lock()
-	if !g.armed {
-		g.mu.Unlock()
-		return
-	}
-	if g.countdown > 0 {
-		g.countdown--
-		g.mu.Unlock()
-		return
-	}
-	g.armed = false
-	p, r := g.paused, g.resume
-	g.mu.Unlock()
-	close(p)
-	<-r
-}
-
-func (g *c07Gate) arm(k int) {
-	g.mu.Lock()
-	g.armed, g.countdown = true, k
-	g.paused, g.resume = make(chan struct{}), make(chan struct{})
-	g.mu.Unlock()
-}
-
-// disarm returns true if the gate had not fired (nothing is held).
-func (g *c07Gate) disarm() bool {
-	g.mu.Lock()
-	defer g.mu.Unlock()
-	was := g.armed
-	g.armed = false
-	return was
 }
 
 // C07Scenario is a complete C07 case.
@@ -110,7 +62,7 @@ func c07Run(sc *C07Scenario) (v *nodeViolation, flags map[string]bool) {
 	cfg.SafeTxDelay = sc.DelayMs
 	delay := time.Duration(sc.DelayMs) * time.Millisecond
 	peer := newFakePeer(tree, a1)
-	gate := &c07Gate{}
+	gate := &holdGate{Role: "checker"}
 	store := verifkit.NewMemStore(true)
 	store.SetGate(gate.hook)
 	sn := newStepNode(cfg, store, peer, fetch)
@@ -130,7 +82,7 @@ func c07Run(sc *C07Scenario) (v *nodeViolation, flags map[string]bool) {
 	startChecker := func() func() {
 		n := sn.node
 		done := make(chan struct{})
-		go func() { n.checkTxDelays(context.WithValue(sn.ctx, verifkit.RoleKey, "checker")); close(done) }()
+		go func() { n.checkTxDelays(roleCtx(sn.ctx, "checker")); close(done) }()
 		return func() {
 			n.lock.Lock()
 			n.stopping = true // ends the checker loop of this (finished) node object
